@@ -15,3 +15,1232 @@ Proof. vm_compute. reflexivity. Qed.
 
 Lemma all_exp_complete e : In e all_exp.
 Proof. destruct e; vm_compute; tauto. Qed.
+
+(* ================================================================== part 1: the pre-pass on rendered selectors *)
+Definition pv_csafe (p : stok) : bool := negb (eqs (sval p) (s ":")).
+Definition idsafe (p : stok) : bool :=
+  pv_csafe p && negb (eqs (sval p) (s ".")) && negb (starts (s ":") (sval p) && negb (last_is 40 (sval p))).
+Definition calm (p : stok) : bool :=
+  idsafe p && negb (is_t (sty p) Tnamespace_prefix) && negb (is_t (sty p) TIDENT) && negb (is_t (sty p) Tuniversal).
+Definition anytok (p : stok) : bool := true.
+
+Lemma calm_idsafe p : calm p = true -> idsafe p = true.
+Proof. unfold calm. intros H. do 3 (apply andb_true_iff in H; destruct H as [H ?]). exact H. Qed.
+Lemma idsafe_csafe p : idsafe p = true -> pv_csafe p = true.
+Proof. unfold idsafe. intros H. do 2 (apply andb_true_iff in H; destruct H as [H ?]). exact H. Qed.
+Lemma calm_csafe p : calm p = true -> pv_csafe p = true.
+Proof. intros. now apply idsafe_csafe, calm_idsafe. Qed.
+
+Definition hdP (P : stok -> bool) (acc : list stok) : Prop :=
+  match acc with p :: _ => P p = true | [] => True end.
+(* {P} a ~> g {Q}: after any glued prefix whose last token satisfies P the raw tokens a are glued into g,
+   and the last token then satisfies Q *)
+Definition HT (P : stok -> bool) (a g : list stok) (Q : stok -> bool) : Prop :=
+  forall acc, hdP P acc -> fold_left pstep a acc = rev g ++ acc /\ hdP Q (rev g ++ acc).
+
+Lemma HT_app P Q S a b g h : HT P a g Q -> HT Q b h S -> HT P (a ++ b) (g ++ h) S.
+Proof.
+  intros Ha Hb acc Hp. rewrite fold_left_app. destruct (Ha acc Hp) as [E1 Q1]. rewrite E1.
+  destruct (Hb _ Q1) as [E2 S2]. rewrite E2, rev_app_distr, <- app_assoc. split; auto.
+Qed.
+Lemma HT_cons P Q S t b g h : HT P [t] g Q -> HT Q b h S -> HT P (t :: b) (g ++ h) S.
+Proof. intros. change (t :: b) with ([t] ++ b). eapply HT_app; eauto. Qed.
+Lemma HT_weaken (P P' Q Q' : stok -> bool) a g :
+  (forall p, P' p = true -> P p = true) -> (forall p, Q p = true -> Q' p = true) ->
+  HT P a g Q -> HT P' a g Q'.
+Proof.
+  intros HP HQ Hh acc Hp. destruct (Hh acc) as [E Q1].
+  - destruct acc; simpl in *; auto.
+  - split; auto. destruct (rev g ++ acc); simpl in *; auto.
+Qed.
+Lemma HT_nil P : HT P [] [] P.
+Proof. intros acc Hp. simpl. auto. Qed.
+
+Definition neutral (t : stok) : bool :=
+  negb (is_t (sty t) TIDENT) && negb (is_t (sty t) TFUNCTION) &&
+  negb (eqs (sval t) (s ":")) && negb (eqs (sval t) (s "*")) && negb (eqs (sval t) (s "|")).
+
+Lemma pstep_neutral acc t : neutral t = true -> pstep acc t = t :: acc.
+Proof.
+  unfold neutral. intros H. repeat (apply andb_true_iff in H; destruct H as [H ?]).
+  apply negb_true_iff in H, H0, H1, H2, H3.
+  unfold pstep. rewrite H, H0, H1, H2, H3. destruct acc; reflexivity.
+Qed.
+Lemma HT_neutral P (Q : stok -> bool) t : neutral t = true -> Q t = true -> HT P [t] [t] Q.
+Proof. intros Hn Hq acc _. simpl. rewrite pstep_neutral by assumption. split; auto. Qed.
+
+(* opaque values *)
+Lemma opaque_facts v : opaque v = true ->
+  eqs v (s ":") = false /\ eqs v (s "*") = false /\ eqs v (s "|") = false /\ eqs v (s ".") = false /\
+  starts (s ":") v = false.
+Proof.
+  destruct v as [|c r]; [intros; repeat split; reflexivity|].
+  unfold opaque. cbn [eqs starts s_of_string].
+  change (N_of_ascii ":") with 58%N. change (N_of_ascii "*") with 42%N. change (N_of_ascii "|") with 124%N.
+  change (N_of_ascii ".") with 46%N. rewrite (N.eqb_sym 58 c).
+  destruct (N.eqb_spec c 58), (N.eqb_spec c 42), (N.eqb_spec c 124), (N.eqb_spec c 46); subst; try discriminate;
+  destruct r; simpl; intros H; try discriminate; repeat split; reflexivity.
+Qed.
+
+Lemma namechar_facts c : namechar c = true ->
+  N.eqb c 58 = false /\ N.eqb c 42 = false /\ N.eqb c 124 = false /\ N.eqb c 46 = false /\ N.eqb c 92 = false
+  /\ N.eqb c 40 = false.
+Proof.
+  unfold namechar. intros H.
+  repeat split; apply N.eqb_neq; intros ->; vm_compute in H; discriminate.
+Qed.
+Lemma ident_opaque n : ident n = true -> opaque n = true.
+Proof.
+  destruct n as [|c r]; simpl; [discriminate|]. intros H. apply andb_true_iff in H as [H _].
+  destruct (namechar_facts c H) as (A & B & C & D & _). rewrite A, B, C, D. reflexivity.
+Qed.
+Lemma quoted_opaque v : quoted v = true -> opaque v = true.
+Proof.
+  destruct v as [|c r]; simpl; [discriminate|]. intros H. apply orb_true_iff in H as [H|H];
+    apply N.eqb_eq in H; subst; reflexivity.
+Qed.
+
+Lemma calm_of_opaque t v : opaque v = true -> negb (is_t t Tnamespace_prefix) && negb (is_t t TIDENT)
+   && negb (is_t t Tuniversal) = true -> calm (mkS t v) = true.
+Proof.
+  intros Ho Ht. destruct (opaque_facts v Ho) as (A & B & C & D & E).
+  unfold calm, idsafe, pv_csafe. cbn [sval sty]. rewrite A, D, E. cbn [negb andb].
+  exact Ht.
+Qed.
+Lemma neutral_of_opaque t v : opaque v = true -> negb (is_t t TIDENT) && negb (is_t t TFUNCTION) = true ->
+  neutral (mkS t v) = true.
+Proof.
+  intros Ho Ht. destruct (opaque_facts v Ho) as (A & B & C & D & E).
+  unfold neutral. cbn [sval sty]. rewrite A, B, C, Ht. reflexivity.
+Qed.
+
+(* layout *)
+Lemma HT_ws (P : stok -> bool) w : (forall p, calm p = true -> P p = true) -> ok_ws w = true ->
+  HT P (r_ws w) (r_ws w) P.
+Proof.
+  intros HP. revert P HP. induction w as [|x w IH]; intros P HP Hok; [apply HT_nil|].
+  simpl in Hok. apply andb_true_iff in Hok as [Hx Hw]. simpl.
+  change (r_w x :: r_ws w) with ([r_w x] ++ r_ws w).
+  apply HT_app with (Q := calm).
+  - destruct x; simpl in *; apply HT_neutral; try (apply neutral_of_opaque; auto); apply calm_of_opaque; auto.
+  - eapply HT_weaken; [| |apply (IH calm)]; auto.
+Qed.
+Lemma HT_cm (P : stok -> bool) c : (forall p, calm p = true -> P p = true) -> ok_cm c = true ->
+  HT P (r_cm c) (r_cm c) P.
+Proof.
+  intros HP. revert P HP. induction c as [|x c IH]; intros P HP Hok; [apply HT_nil|].
+  simpl in Hok. apply andb_true_iff in Hok as [Hx Hw]. simpl.
+  change (mkS TCOMMENT x :: r_cm c) with ([mkS TCOMMENT x] ++ r_cm c).
+  apply HT_app with (Q := calm).
+  - apply HT_neutral; [apply neutral_of_opaque|apply calm_of_opaque]; auto.
+  - eapply HT_weaken; [| |apply (IH calm)]; auto.
+Qed.
+
+(* ---- single pre-pass steps *)
+Lemma ident_facts n : ident n = true ->
+  eqs n (s ":") = false /\ eqs n (s "*") = false /\ eqs n (s "|") = false /\ eqs n (s ".") = false /\
+  starts (s ":") n = false /\ mem 124 n = false /\ n <> [].
+Proof.
+  intros H. destruct (opaque_facts n (ident_opaque n H)) as (A & B & C & D & E).
+  repeat split; auto.
+  - destruct n; [discriminate|]. unfold ident in H. clear -H. induction (n :: n0) as [|c r IH]; [reflexivity|].
+    simpl in *. apply andb_true_iff in H as [H1 H2]. destruct (namechar_facts c H1) as (_ & _ & X & _).
+    rewrite X. simpl. auto.
+  - intros ->. discriminate.
+Qed.
+
+Lemma pstep_ident acc n : hdP idsafe acc -> ident n = true ->
+  pstep acc (mkS TIDENT n) = mkS TIDENT n :: acc.
+Proof.
+  intros Hp Hn. destruct (ident_facts n Hn) as (A & B & C & D & E & F & G).
+  destruct acc as [|p acc]; unfold pstep; cbn [sty sval is_t tty_eqb andb]; rewrite ?A, ?B, ?C; [reflexivity|].
+  simpl in Hp. unfold idsafe, pv_csafe in Hp. do 2 (apply andb_true_iff in Hp; destruct Hp as [Hp ?]).
+  apply negb_true_iff in Hp, H, H0. rewrite H0, H. reflexivity.
+Qed.
+
+Lemma pstep_star acc : hdP calm acc -> pstep acc (ch "*") = mkS Tuniversal (s "*") :: acc.
+Proof.
+  destruct acc as [|p acc]; [reflexivity|]. cbn [hdP]. unfold calm. intros H.
+  do 3 (apply andb_true_iff in H; destruct H as [H ?]). apply negb_true_iff in H2.
+  unfold pstep, ch. cbn [sty sval is_t tty_eqb]. rewrite H2. reflexivity.
+Qed.
+
+Lemma pstep_bar acc : hdP calm acc -> pstep acc (ch "|") = mkS Tnamespace_prefix (s "|") :: acc.
+Proof.
+  destruct acc as [|p acc]; [reflexivity|]. cbn [hdP]. unfold calm. intros H.
+  do 3 (apply andb_true_iff in H; destruct H as [H ?]). apply negb_true_iff in H0, H1.
+  unfold pstep, ch. cbn [sty sval is_t tty_eqb]. rewrite H0, H1. reflexivity.
+Qed.
+
+Lemma pstep_bar_ident acc p : ident p = true ->
+  pstep (mkS TIDENT p :: acc) (ch "|") = mkS Tnamespace_prefix (p ++ s "|") :: acc.
+Proof.
+  intros Hn. destruct (ident_facts p Hn) as (A & B & C & D & E & F & G).
+  unfold pstep, ch. cbn [sty sval is_t tty_eqb]. rewrite F. reflexivity.
+Qed.
+
+Lemma last_is_app c v : last_is c (v ++ [c]) = true.
+Proof.
+  induction v as [|x v IH]; simpl; [apply N.eqb_refl|].
+  destruct (v ++ [c]) eqn:E; [destruct v; discriminate|]. exact IH.
+Qed.
+
+Lemma pstep_colon acc : hdP pv_csafe acc -> pstep acc (ch ":") = ch ":" :: acc.
+Proof.
+  destruct acc as [|p acc]; [reflexivity|]. cbn [hdP]. unfold pv_csafe. intros H. apply negb_true_iff in H.
+  unfold pstep, ch. cbn [sty sval is_t tty_eqb]. rewrite H. reflexivity.
+Qed.
+
+Definition cval (dbl : bool) : str := if dbl then s "::" else s ":".
+Definition pty (dbl : bool) : tty := if dbl then Tpseudo_element else Tpseudo_class.
+
+Lemma pstep_colons acc dbl : hdP pv_csafe acc ->
+  fold_left pstep (colons dbl) acc = mkS TCHAR (cval dbl) :: acc.
+Proof.
+  intros H. destruct dbl; cbn [colons fold_left]; rewrite (pstep_colon acc) by assumption; reflexivity.
+Qed.
+
+Lemma pstep_pseudo_ident acc dbl n : ident n = true ->
+  pstep (mkS TCHAR (cval dbl) :: acc) (mkS TIDENT n) = mkS (pty dbl) (cval dbl ++ n) :: acc.
+Proof.
+  intros Hn. destruct (ident_facts n Hn) as (A & B & C & D & E & F & G).
+  destruct dbl; unfold pstep; cbn [sty sval is_t tty_eqb cval andb]; rewrite A; reflexivity.
+Qed.
+
+Lemma unesc_plain x : mem 92 x = false -> unesc x = x.
+Proof.
+  induction x as [|c r IH]; [reflexivity|]. simpl. intros H. apply orb_false_iff in H as [H1 H2].
+  rewrite H1. now rewrite IH.
+Qed.
+Lemma lower_app a b : lower (a ++ b) = lower a ++ lower b.
+Proof. unfold lower. apply flat_map_app. Qed.
+Lemma ident_noslash n : forallb namechar n = true -> mem 92 n = false.
+Proof.
+  induction n as [|c r IH]; [reflexivity|]. simpl. intros H. apply andb_true_iff in H as [H1 H2].
+  destruct (namechar_facts c H1) as (_ & _ & _ & _ & X & _). rewrite X. simpl. auto.
+Qed.
+Lemma mem_app c a b : mem c (a ++ b) = mem c a || mem c b.
+Proof. induction a; simpl; [reflexivity|]. now rewrite IHa, orb_assoc. Qed.
+Lemma ident_namechars n : ident n = true -> forallb namechar n = true.
+Proof. destruct n; [discriminate|]. auto. Qed.
+
+Lemma normalize_fn pre n : mem 92 pre = false -> ident n = true ->
+  normalize (pre ++ n ++ s "(") = lower pre ++ lower n ++ s "(".
+Proof.
+  intros Hp Hn. unfold normalize. rewrite unesc_plain.
+  - now rewrite !lower_app.
+  - rewrite !mem_app, Hp, (ident_noslash n (ident_namechars n Hn)). reflexivity.
+Qed.
+Lemma normalize_id pre n : mem 92 pre = false -> ident n = true ->
+  normalize (pre ++ n) = lower pre ++ lower n.
+Proof.
+  intros Hp Hn. unfold normalize. rewrite unesc_plain.
+  - now rewrite !lower_app.
+  - rewrite !mem_app, Hp, (ident_noslash n (ident_namechars n Hn)). reflexivity.
+Qed.
+
+Lemma fn_not n : ident n = true -> eqs (lower n) (s "not") = false ->
+  eqs (normalize (n ++ s "(")) (s "not(") = false.
+Proof.
+  intros Hn H. pose proof (normalize_fn [] n eq_refl Hn) as Z. change (lower []) with (@nil N) in Z. cbn [app] in Z. rewrite Z.
+  destruct (eqs (lower n ++ s "(") (s "not(")) eqn:E; [|reflexivity].
+  apply eqs_spec in E. change (s "not(") with (s "not" ++ s "(") in E. apply app_inv_tail in E.
+  rewrite E in H. vm_compute in H. discriminate.
+Qed.
+
+Lemma pstep_pseudo_fn acc dbl n : ident n = true -> eqs (lower n) (s "not") = false ->
+  pstep (mkS TCHAR (cval dbl) :: acc) (mkS TFUNCTION (n ++ s "(")) = mkS (pty dbl) (cval dbl ++ n ++ s "(") :: acc.
+Proof.
+  intros Hn Hnot. pose proof (fn_not n Hn Hnot) as X.
+  assert (Y : eqs (n ++ s "(") (s ":") = false).
+  { destruct n as [|c r]; [discriminate|]. simpl in Hn. apply andb_true_iff in Hn as [Hc _].
+    destruct (namechar_facts c Hc) as (A & _). simpl. change (N_of_ascii ":") with 58%N. rewrite A. reflexivity. }
+  destruct dbl; unfold pstep; cbn [sty sval is_t tty_eqb cval andb]; rewrite Y, X; reflexivity.
+Qed.
+
+(* ---- glued forms *)
+Definition nsval (q : nsq) : str :=
+  match q with NsDefault => [] | NsAny => s "*|" | NsNo => s "|" | NsP p => p ++ s "|" end.
+Definition g_ns (q : nsq) : list stok :=
+  match q with NsDefault => [] | _ => [mkS Tnamespace_prefix (nsval q)] end.
+Definition g_univ (q : nsq) : stok := mkS Tuniversal (nsval q ++ s "*").
+Definition g_attr (a : attr) : list stok :=
+  ch "[" :: r_ws (at_w1 a) ++ g_ns (at_ns a) ++ mkS TIDENT (at_name a) :: r_ws (at_w2 a) ++
+  match at_rest a with
+  | None => []
+  | Some (o, w3, v, w4) => r_op o :: r_ws w3 ++ r_av v :: r_ws w4
+  end ++ [ch "]"].
+Definition g_pseudo (p : pseudo) : list stok :=
+  match p with
+  | PsId dbl n => [mkS (pty dbl) (cval dbl ++ n)]
+  | PsFn dbl n w e => mkS (pty dbl) (cval dbl ++ n ++ s "(") :: r_ws w ++ r_expr e ++ [ch ")"]
+  end.
+Definition g_class (n : str) : stok := mkS Tclass (s "." ++ n).
+Definition g_negarg (a : negarg) : list stok :=
+  match a with
+  | NaType q n => g_ns q ++ [mkS TIDENT n]
+  | NaUniv q => [g_univ q]
+  | NaHash v => [mkS THASH v]
+  | NaClass n => [g_class n]
+  | NaAttr a => g_attr a
+  | NaPseudo p => g_pseudo p
+  end.
+Definition g_simple (x : simple) : list stok :=
+  match x with
+  | SHash v => [mkS THASH v]
+  | SClass n => [g_class n]
+  | SAttr a => g_attr a
+  | SPseudo p => g_pseudo p
+  | SNot w1 a w2 => mkS Tnegation (s ":not(") :: r_ws w1 ++ g_negarg a ++ r_ws w2 ++ [ch ")"]
+  end.
+Definition g_head (h : head) : list stok :=
+  match h with HNone => [] | HType q n => g_ns q ++ [mkS TIDENT n] | HUniv q => [g_univ q] end.
+Definition g_compound (c : compound) : list stok :=
+  g_head (c_head c) ++ flat_map (fun p => r_cm (fst p) ++ g_simple (snd p)) (c_rest c) ++
+  match c_pe c with None => [] | Some (cm, p) => r_cm cm ++ g_pseudo p end.
+Definition g_selector (x : selector) : list stok :=
+  r_ws (s_lead x) ++ g_compound (s_first x) ++
+  flat_map (fun p => r_comb (fst p) ++ g_compound (snd p)) (s_more x) ++ r_ws (s_trail x).
+
+(* ---- units *)
+Lemma idsafe_first t c r : N.eqb c 58 = false -> N.eqb c 46 = false -> idsafe (mkS t (c :: r)) = true.
+Proof.
+  intros A B. unfold idsafe, pv_csafe. cbn [sval].
+  assert (E1 : eqs (c :: r) (s ":") = false)
+    by (cbn [eqs s_of_string]; change (N_of_ascii ":") with 58%N; rewrite A; reflexivity).
+  assert (E2 : eqs (c :: r) (s ".") = false)
+    by (cbn [eqs s_of_string]; change (N_of_ascii ".") with 46%N; rewrite B; reflexivity).
+  assert (E3 : starts (s ":") (c :: r) = false)
+    by (cbn [starts s_of_string]; change (N_of_ascii ":") with 58%N; rewrite N.eqb_sym, A; reflexivity).
+  rewrite E1, E2, E3. reflexivity.
+Qed.
+Lemma idsafe_ident t n : ident n = true -> idsafe (mkS t n) = true.
+Proof.
+  intros Hn. destruct n as [|c r]; [discriminate|]. simpl in Hn. apply andb_true_iff in Hn as [Hc _].
+  destruct (namechar_facts c Hc) as (X1 & X2 & X3 & X4 & _). now apply idsafe_first.
+Qed.
+Lemma idsafe_ns ns q : declared ns q = true -> idsafe (mkS Tnamespace_prefix (nsval q)) = true.
+Proof.
+  intros Hd. destruct q; try reflexivity.
+  simpl in Hd. apply andb_true_iff in Hd as [Hp _].
+  destruct p as [|c r]; [discriminate|]. simpl in Hp. apply andb_true_iff in Hp as [Hc _].
+  destruct (namechar_facts c Hc) as (X1 & X2 & X3 & X4 & _). cbn [nsval app]. now apply idsafe_first.
+Qed.
+
+Lemma HT_ns ns q : declared ns q = true -> HT calm (r_ns q) (g_ns q) idsafe.
+Proof.
+  intros Hd. destruct q as [| | |p].
+  - simpl. eapply HT_weaken; [| |apply HT_nil]; auto using calm_idsafe.
+  - intros acc Hp. cbn [r_ns fold_left]. rewrite (pstep_star acc) by assumption. split; reflexivity.
+  - intros acc Hp. cbn [r_ns fold_left]. rewrite (pstep_bar acc) by assumption. split; reflexivity.
+  - intros acc Hp. pose proof Hd as Hd'. simpl in Hd. apply andb_true_iff in Hd as [Hi _]. cbn [r_ns fold_left].
+    rewrite (pstep_ident acc); auto.
+    + rewrite pstep_bar_ident by assumption. split; [reflexivity|].
+      apply (idsafe_ns ns (NsP p) Hd').
+    + destruct acc; simpl in *; auto using calm_idsafe.
+Qed.
+
+Lemma HT_tname ns q n : declared ns q = true -> ident n = true ->
+  HT calm (r_ns q ++ [mkS TIDENT n]) (g_ns q ++ [mkS TIDENT n]) idsafe.
+Proof.
+  intros Hd Hn. eapply HT_app; [apply (HT_ns ns); assumption|].
+  intros acc Hp. cbn [fold_left]. rewrite pstep_ident; auto. split; [reflexivity|].
+  now apply idsafe_ident.
+Qed.
+
+Lemma last_is_bar q : q <> NsDefault -> last_is 124 (nsval q) = true.
+Proof. destruct q; try reflexivity; [congruence|]. intros _. apply (last_is_app 124 p). Qed.
+
+Lemma HT_univ ns q : declared ns q = true -> HT calm (r_ns q ++ [ch "*"]) [g_univ q] idsafe.
+Proof.
+  intros Hd. destruct q as [| | |p].
+  - intros acc Hp. cbn [r_ns app fold_left]. rewrite (pstep_star acc) by assumption. split; reflexivity.
+  - intros acc Hp. cbn [r_ns app fold_left]. rewrite (pstep_star acc) by assumption. split; reflexivity.
+  - intros acc Hp. cbn [r_ns app fold_left]. rewrite (pstep_bar acc) by assumption. split; reflexivity.
+  - intros acc Hp. pose proof Hd as Hd'. simpl in Hd. apply andb_true_iff in Hd as [Hi _].
+    cbn [r_ns app fold_left]. rewrite pstep_ident; auto.
+    + rewrite pstep_bar_ident by assumption.
+      unfold pstep at 1. cbn [sty sval is_t tty_eqb ch andb].
+      rewrite (last_is_app 124 p : last_is 124 (p ++ s "|") = true). split; [reflexivity|].
+      destruct p as [|c r]; [discriminate|]. simpl in Hi. apply andb_true_iff in Hi as [Hc _].
+      destruct (namechar_facts c Hc) as (X1 & X2 & X3 & X4 & _).
+      unfold g_univ. cbn [nsval app rev hdP]. now apply idsafe_first.
+    + destruct acc; simpl in *; auto using calm_idsafe.
+Qed.
+
+Lemma calm_any (p : stok) : calm p = true -> anytok p = true.
+Proof. reflexivity. Qed.
+Lemma calm_ch x : opaque (s x) = true -> calm (ch x) = true.
+Proof. intros. apply calm_of_opaque; auto. Qed.
+Lemma neutral_ch x : opaque (s x) = true -> neutral (ch x) = true.
+Proof. intros. apply neutral_of_opaque; auto. Qed.
+
+Lemma HT_tok P t v : opaque v = true -> negb (is_t t TIDENT) && negb (is_t t TFUNCTION) = true ->
+  negb (is_t t Tnamespace_prefix) && negb (is_t t TIDENT) && negb (is_t t Tuniversal) = true ->
+  HT P [mkS t v] [mkS t v] calm.
+Proof. intros. apply HT_neutral; [apply neutral_of_opaque|apply calm_of_opaque]; auto. Qed.
+
+Lemma HT_class P n : ident n = true -> HT P [ch "."; mkS TIDENT n] [g_class n] calm.
+Proof.
+  intros Hn acc _. destruct (ident_facts n Hn) as (A & B & C & D & E & F & G).
+  cbn [fold_left]. rewrite (pstep_neutral acc (ch ".")) by reflexivity.
+  unfold pstep. cbn [sty sval is_t tty_eqb ch andb]. rewrite A. split; [reflexivity|].
+  destruct n as [|c r]; [congruence|]. reflexivity.
+Qed.
+
+Lemma HT_op P o : HT P [r_op o] [r_op o] calm.
+Proof. destruct o; apply HT_neutral; reflexivity. Qed.
+Lemma HT_av P v : match v with AvI x => ident x | AvS x => quoted x end = true -> HT idsafe [r_av v] [r_av v] P ->
+  True.
+Proof. auto. Qed.
+
+Lemma HT_attr ns P a : ok_attr ns a = true -> HT P (r_attr a) (g_attr a) calm.
+Proof.
+  unfold ok_attr. intros H. do 4 (apply andb_true_iff in H; destruct H as [H ?]).
+  rename H into Hw1, H3 into Hd, H2 into Hn, H1 into Hw2, H0 into Hr.
+  unfold r_attr, g_attr.
+  change (ch "[" :: r_ws (at_w1 a) ++ ?x) with ([ch "["] ++ r_ws (at_w1 a) ++ x).
+  apply HT_app with (Q := calm); [apply HT_neutral; reflexivity|].
+  apply HT_app with (Q := calm); [apply HT_ws; auto|].
+  apply HT_app with (Q := idsafe); [apply (HT_ns ns); auto|].
+  change (mkS TIDENT (at_name a) :: ?x) with ([mkS TIDENT (at_name a)] ++ x).
+  apply HT_app with (Q := idsafe).
+  { intros acc Hp. cbn [fold_left]. rewrite pstep_ident by assumption. split; [reflexivity|]. now apply idsafe_ident. }
+  apply HT_app with (Q := idsafe); [apply HT_ws; auto using calm_idsafe|].
+  apply HT_app with (Q := idsafe).
+  - destruct (at_rest a) as [[[[o w3] v] w4]|]; [|apply HT_nil].
+    do 2 (apply andb_true_iff in Hr; destruct Hr as [Hr ?]).
+    change (r_op o :: ?x) with ([r_op o] ++ x).
+    apply HT_app with (Q := calm); [apply HT_op|].
+    apply HT_app with (Q := calm); [apply HT_ws; auto|].
+    change (r_av v :: ?x) with ([r_av v] ++ x).
+    apply HT_app with (Q := idsafe); [|apply HT_ws; auto using calm_idsafe].
+    destruct v as [x|x]; cbn [r_av].
+    + intros acc Hp. cbn [fold_left]. rewrite pstep_ident; auto.
+      * split; [reflexivity|]. now apply idsafe_ident.
+      * destruct acc; simpl in *; auto using calm_idsafe.
+    + apply HT_neutral; [apply neutral_of_opaque; auto using quoted_opaque|].
+      apply calm_idsafe, calm_of_opaque; auto using quoted_opaque.
+  - apply HT_neutral; reflexivity.
+Qed.
+
+Lemma HT_et t : ok_et t = true -> HT idsafe [r_et t] [r_et t] idsafe.
+Proof.
+  destruct t; cbn [ok_et r_et]; intros H; try (apply HT_neutral; reflexivity).
+  - apply HT_neutral; [apply neutral_of_opaque|apply calm_idsafe, calm_of_opaque]; auto.
+  - apply HT_neutral; [apply neutral_of_opaque|apply calm_idsafe, calm_of_opaque]; auto.
+  - apply HT_neutral; [apply neutral_of_opaque|apply calm_idsafe, calm_of_opaque]; auto using quoted_opaque.
+  - intros acc Hp. cbn [fold_left]. rewrite pstep_ident by assumption. split; [reflexivity|]. now apply idsafe_ident.
+Qed.
+
+Lemma HT_expr e : forallb (fun p => ok_et (fst p) && ok_ws (snd p)) e = true -> HT idsafe (r_expr e) (r_expr e) idsafe.
+Proof.
+  induction e as [|[t w] e IH]; [intros; apply HT_nil|]. simpl. intros H.
+  apply andb_true_iff in H as [H1 H2]. apply andb_true_iff in H1 as [H0 H1].
+  change (r_et t :: r_ws w ++ ?x) with ([r_et t] ++ r_ws w ++ x).
+  apply HT_app with (Q := idsafe); [now apply HT_et|].
+  apply HT_app with (Q := idsafe); [apply HT_ws; auto using calm_idsafe|auto].
+Qed.
+
+Lemma csafe_colon_name t dbl x : x <> [] -> pv_csafe (mkS t (cval dbl ++ x)) = true.
+Proof. destruct x; [congruence|]. destruct dbl; reflexivity. Qed.
+
+Lemma HT_pseudo p : ok_pseudo p = true -> HT pv_csafe (r_pseudo p) (g_pseudo p) pv_csafe.
+Proof.
+  destruct p as [dbl n|dbl n w e]; cbn [ok_pseudo r_pseudo g_pseudo]; intros H.
+  - apply andb_true_iff in H as [H _]. intros acc Hp. rewrite fold_left_app, pstep_colons by assumption. cbn [fold_left].
+    rewrite pstep_pseudo_ident by assumption. split; [reflexivity|].
+    destruct (ident_facts n H) as (_ & _ & _ & _ & _ & _ & G). now apply csafe_colon_name.
+  - do 3 (apply andb_true_iff in H; destruct H as [H ?]). apply negb_true_iff in H2.
+    change (mkS (pty dbl) (cval dbl ++ n ++ s "(") :: ?x) with ([mkS (pty dbl) (cval dbl ++ n ++ s "(")] ++ x).
+    change (colons dbl ++ mkS TFUNCTION (n ++ s "(") :: ?x) with (colons dbl ++ [mkS TFUNCTION (n ++ s "(")] ++ x).
+    rewrite app_assoc.
+    apply HT_app with (Q := calm).
+    + intros acc Hp. rewrite fold_left_app, pstep_colons by assumption. cbn [fold_left].
+      rewrite pstep_pseudo_fn by assumption. split; [reflexivity|].
+      cbn [rev app hdP]. unfold calm, idsafe, pv_csafe. cbn [sval sty].
+      assert (L : last_is 40 (cval dbl ++ n ++ s "(") = true).
+      { rewrite app_assoc. apply (last_is_app 40). }
+      rewrite L. destruct (ident_facts n H) as (_ & _ & _ & _ & _ & _ & G).
+      destruct n as [|c r]; [congruence|]. destruct dbl; reflexivity.
+    + apply HT_app with (Q := idsafe);
+        [eapply HT_weaken; [| |apply (HT_ws idsafe)]; auto using calm_idsafe|].
+      apply HT_app with (Q := idsafe).
+      * apply HT_expr. unfold ok_expr in H0. destruct e; [discriminate|exact H0].
+      * eapply HT_weaken; [| |apply (HT_neutral idsafe calm (ch ")")); reflexivity]; auto using calm_csafe.
+Qed.
+
+Lemma hashv_opaque v : hashv v = true -> opaque v = true.
+Proof. destruct v as [|c r]; simpl; [discriminate|]. intros H. apply N.eqb_eq in H. subst. reflexivity. Qed.
+Lemma HT_hash P v : hashv v = true -> HT P [mkS THASH v] [mkS THASH v] calm.
+Proof. intros. apply HT_tok; auto using hashv_opaque. Qed.
+
+Lemma HT_negarg ns a : ok_negarg ns a = true -> HT calm (r_negarg a) (g_negarg a) pv_csafe.
+Proof.
+  destruct a; cbn [ok_negarg r_negarg g_negarg]; intros H.
+  - apply andb_true_iff in H as [H1 H2]. eapply HT_weaken; [| |apply (HT_tname ns)]; auto using idsafe_csafe.
+  - eapply HT_weaken; [| |apply (HT_univ ns)]; auto using idsafe_csafe.
+  - eapply HT_weaken; [| |apply (HT_hash calm)]; auto using calm_csafe.
+  - eapply HT_weaken; [| |apply (HT_class calm)]; auto using calm_csafe.
+  - eapply HT_weaken; [| |apply (HT_attr ns calm)]; auto using calm_csafe.
+  - eapply HT_weaken; [| |apply HT_pseudo]; auto using calm_csafe.
+Qed.
+
+Lemma HT_simple ns x : ok_simple ns x = true -> HT pv_csafe (r_simple x) (g_simple x) pv_csafe.
+Proof.
+  destruct x; cbn [ok_simple r_simple g_simple]; intros H.
+  - eapply HT_weaken; [| |apply (HT_hash pv_csafe)]; auto using calm_csafe.
+  - eapply HT_weaken; [| |apply (HT_class pv_csafe)]; auto using calm_csafe.
+  - eapply HT_weaken; [| |apply (HT_attr ns pv_csafe)]; auto using calm_csafe.
+  - apply andb_true_iff in H as [H _]. now apply HT_pseudo.
+  - do 2 (apply andb_true_iff in H; destruct H as [H ?]).
+    change (ch ":" :: mkS TFUNCTION (s "not(") :: ?x) with ([ch ":"; mkS TFUNCTION (s "not(")] ++ x).
+    change (mkS Tnegation (s ":not(") :: ?x) with ([mkS Tnegation (s ":not(")] ++ x).
+    apply HT_app with (Q := calm).
+    { intros acc Hp. cbn [fold_left]. rewrite (pstep_colon acc) by assumption. split; reflexivity. }
+    apply HT_app with (Q := calm); [apply HT_ws; auto|].
+    apply HT_app with (Q := pv_csafe); [now apply (HT_negarg ns)|].
+    apply HT_app with (Q := pv_csafe); [apply HT_ws; auto using calm_csafe|].
+    eapply HT_weaken; [| |apply (HT_neutral pv_csafe calm (ch ")")); reflexivity]; auto using calm_csafe.
+Qed.
+
+Lemma HT_head ns h : ok_head ns h = true -> HT calm (r_head h) (g_head h) pv_csafe.
+Proof.
+  destruct h; cbn [ok_head r_head g_head]; intros H.
+  - eapply HT_weaken; [| |apply HT_nil]; auto using calm_csafe.
+  - apply andb_true_iff in H as [H1 H2]. eapply HT_weaken; [| |apply (HT_tname ns)]; auto using idsafe_csafe.
+  - eapply HT_weaken; [| |apply (HT_univ ns)]; auto using idsafe_csafe.
+Qed.
+
+Lemma HT_rest ns l : forallb (fun p => ok_cm (fst p) && ok_simple ns (snd p)) l = true ->
+  HT pv_csafe (flat_map (fun p => r_cm (fst p) ++ r_simple (snd p)) l)
+              (flat_map (fun p => r_cm (fst p) ++ g_simple (snd p)) l) pv_csafe.
+Proof.
+  induction l as [|[c x] l IH]; [intros; apply HT_nil|]. cbn [forallb flat_map fst snd]. intros H.
+  apply andb_true_iff in H as [H1 H2]. apply andb_true_iff in H1 as [H0 H1].
+  rewrite <- !app_assoc.
+  apply HT_app with (Q := pv_csafe); [apply HT_cm; auto using calm_csafe|].
+  apply HT_app with (Q := pv_csafe); [now apply (HT_simple ns)|auto].
+Qed.
+
+Lemma HT_compound ns c : ok_compound ns c = true -> HT calm (r_compound c) (g_compound c) pv_csafe.
+Proof.
+  unfold ok_compound. intros H. do 3 (apply andb_true_iff in H; destruct H as [H ?]).
+  unfold r_compound, g_compound.
+  apply HT_app with (Q := pv_csafe); [now apply (HT_head ns)|].
+  apply HT_app with (Q := pv_csafe); [now apply (HT_rest ns)|].
+  destruct (c_pe c) as [[cm p]|]; [|apply HT_nil].
+  do 2 (apply andb_true_iff in H1; destruct H1 as [H1 ?]).
+  apply HT_app with (Q := pv_csafe); [apply HT_cm; auto using calm_csafe|now apply HT_pseudo].
+Qed.
+
+Lemma HT_comb c : ok_comb c = true -> HT pv_csafe (r_comb c) (r_comb c) calm.
+Proof.
+  destruct c; cbn [ok_comb r_comb]; intros H.
+  - do 2 (apply andb_true_iff in H; destruct H as [H ?]).
+    apply HT_app with (Q := pv_csafe); [apply HT_ws; auto using calm_csafe|].
+    change (mkS TS sp :: ?x) with ([mkS TS sp] ++ x).
+    apply HT_app with (Q := calm); [apply HT_tok; auto|apply HT_ws; auto].
+  - apply andb_true_iff in H as [H1 H2].
+    apply HT_app with (Q := pv_csafe); [apply HT_ws; auto using calm_csafe|].
+    change (ch ">" :: ?x) with ([ch ">"] ++ x).
+    apply HT_app with (Q := calm); [apply HT_neutral; reflexivity|apply HT_ws; auto].
+  - apply andb_true_iff in H as [H1 H2].
+    apply HT_app with (Q := pv_csafe); [apply HT_ws; auto using calm_csafe|].
+    change (ch "+" :: ?x) with ([ch "+"] ++ x).
+    apply HT_app with (Q := calm); [apply HT_neutral; reflexivity|apply HT_ws; auto].
+  - apply andb_true_iff in H as [H1 H2].
+    apply HT_app with (Q := pv_csafe); [apply HT_ws; auto using calm_csafe|].
+    change (ch "~" :: ?x) with ([ch "~"] ++ x).
+    apply HT_app with (Q := calm); [apply HT_neutral; reflexivity|apply HT_ws; auto].
+Qed.
+
+Lemma HT_more ns l : forallb (fun p => ok_comb (fst p) && ok_compound ns (snd p)) l = true ->
+  HT pv_csafe (flat_map (fun p => r_comb (fst p) ++ r_compound (snd p)) l)
+              (flat_map (fun p => r_comb (fst p) ++ g_compound (snd p)) l) pv_csafe.
+Proof.
+  induction l as [|[c x] l IH]; [intros; apply HT_nil|]. cbn [forallb flat_map fst snd]. intros H.
+  apply andb_true_iff in H as [H1 H2]. apply andb_true_iff in H1 as [H0 H1].
+  rewrite <- !app_assoc.
+  apply HT_app with (Q := calm); [now apply HT_comb|].
+  apply HT_app with (Q := pv_csafe); [now apply (HT_compound ns)|auto].
+Qed.
+
+Theorem prepass_render ns x : Declared ns x -> prepass (render x) = g_selector x.
+Proof.
+  unfold Declared, declared_b. intros H. do 3 (apply andb_true_iff in H; destruct H as [H ?]).
+  assert (T : HT calm (render x) (g_selector x) pv_csafe).
+  { unfold render, g_selector.
+    apply HT_app with (Q := calm); [apply HT_ws; auto|].
+    apply HT_app with (Q := pv_csafe); [now apply (HT_compound ns)|].
+    apply HT_app with (Q := pv_csafe); [now apply (HT_more ns)|apply HT_ws; auto using calm_csafe]. }
+  unfold prepass. destruct (T [] I) as [E _]. rewrite E, app_nil_r. apply rev_involutive.
+Qed.
+
+(* ================================================================== part 2: the machine on glued tokens *)
+Definition octx (neg : bool) : list cx := if neg then [CNegation] else [].
+Definition cont (e : exp) : bool :=
+  match e with E_simple_selector_sequence | E_simple_selector_sequence__combinator
+             | E_simple_selector_sequence2__combinator => true | _ => false end.
+Definition hstart (e : exp) : bool :=
+  match e with E_simple_selector_sequence | E_simple_selector_sequence__combinator => true | _ => false end.
+Definition startok (neg : bool) (e : exp) : bool :=
+  if neg then match e with E_negation_arg => true | _ => false end else cont e.
+Definition hstartok (neg : bool) (e : exp) : bool :=
+  if neg then match e with E_negation_arg => true | _ => false end else hstart e.
+Definition after_simple (neg : bool) : exp := if neg then E_negationend else E_simple_selector_sequence2__combinator.
+
+Definition nbi (i : item) : bool := negb (blank (snd i)).
+Definition nb (q : list item) : bool := existsb nbi q.
+Definition pres (q q' : list item) : Prop := nb q = true -> nb q' = true.
+Lemma pres_refl q : pres q q. Proof. unfold pres; auto. Qed.
+Lemma pres_trans a b c : pres a b -> pres b c -> pres a c. Proof. unfold pres; auto. Qed.
+Lemma pres_push i q : pres q (i :: q).
+Proof. unfold pres. simpl. intros ->. apply orb_true_r. Qed.
+Lemma nb_push i q : nbi i = true -> nb (i :: q) = true.
+Proof. simpl. intros ->. reflexivity. Qed.
+Lemma pres_nb q q' : nb q = true -> pres q q' -> nb q' = true. Proof. unfold pres; auto. Qed.
+
+Lemma msteps_app ns σ a b :
+  msteps ns σ (a ++ b) = match msteps ns σ a with Some σ' => msteps ns σ' b | None => None end.
+Proof. revert σ; induction a as [|t a IH]; intros σ; simpl; [reflexivity|]. destruct (mstep ns σ t); auto. Qed.
+Lemma msteps_cons ns σ t b :
+  msteps ns σ (t :: b) = match msteps ns σ [t] with Some σ' => msteps ns σ' b | None => None end.
+Proof. simpl. destruct (mstep ns σ t); auto. Qed.
+
+(* ---- layout tokens *)
+Lemma comment_step ns e cxs b c d w q v :
+  mstep ns (mkSt e cxs None b c d w q) (mkS TCOMMENT v) = Some (mkSt e cxs None b c d w ((I_COMMENT, VComment v) :: q)).
+Proof. destruct cxs as [|[] ?]; reflexivity. Qed.
+
+Lemma ws_inert ns e cxs b c d w q ws :
+  match cxs with CPseudoClass :: _ | CPseudoElement :: _ => false | CAttrib :: _ => true | _ => negb (T_S_0 e) end = true ->
+  exists q', msteps ns (mkSt e cxs None b c d w q) (r_ws ws) = Some (mkSt e cxs None b c d w q') /\ pres q q'.
+Proof.
+  intros Hc. revert q. induction ws as [|x ws IH]; intros q; [exists q; split; [reflexivity|apply pres_refl]|].
+  cbn [r_ws map msteps]. destruct x as [v|v]; cbn [r_w].
+  - assert (E : mstep ns (mkSt e cxs None b c d w q) (mkS TS v) = Some (mkSt e cxs None b c d w q)).
+    { destruct cxs as [|[] ?]; try discriminate Hc; try reflexivity.
+      - unfold mstep. change (handler_of (sty (mkS TS v))) with (Some H_S). unfold h_S. cbn [top_pseudo ctx top_is expd negb andb].
+        apply negb_true_iff in Hc. rewrite Hc. reflexivity.
+      - unfold mstep. change (handler_of (sty (mkS TS v))) with (Some H_S). unfold h_S. cbn [top_pseudo ctx top_is expd is_cx negb andb].
+        apply negb_true_iff in Hc. rewrite Hc. reflexivity. }
+    rewrite E. apply IH.
+  - rewrite comment_step. destruct (IH ((I_COMMENT, VComment v) :: q)) as (q' & E & P). exists q'. split; auto.
+    eapply pres_trans; [apply pres_push|exact P].
+Qed.
+
+Definition is_pcx (x : cx) : bool := match x with CPseudoClass | CPseudoElement => true | _ => false end.
+Lemma ws_pseudo ns e x o b c d w q ws : is_pcx x = true ->
+  exists q', msteps ns (mkSt e (x :: o) None b c d w q) (r_ws ws) = Some (mkSt e (x :: o) None b c d w q') /\ pres q q'.
+Proof.
+  intros Hx. revert q. induction ws as [|t ws IH]; intros q; [exists q; split; [reflexivity|apply pres_refl]|].
+  cbn [r_ws map msteps]. destruct t as [v|v]; cbn [r_w].
+  - assert (E : exists q1, mstep ns (mkSt e (x :: o) None b c d w q) (mkS TS v) = Some (mkSt e (x :: o) None b c d w q1)
+                           /\ pres q q1).
+    { unfold mstep. change (handler_of (sty (mkS TS v))) with (Some H_S). unfold h_S.
+      destruct x; try discriminate Hx; cbn [top_pseudo ctx];
+        (destruct (nonempty_sq _ && negb (last_pm _));
+         [eexists; split; [reflexivity|apply pres_push]|eexists; split; [reflexivity|apply pres_refl]]). }
+    destruct E as (q1 & E & P1). rewrite E. destruct (IH q1) as (q' & E' & P'). exists q'. split; auto.
+    eapply pres_trans; eauto.
+  - rewrite comment_step. destruct (IH ((I_COMMENT, VComment v) :: q)) as (q' & E & P). exists q'. split; auto.
+    eapply pres_trans; [apply pres_push|exact P].
+Qed.
+
+Lemma cm_any ns e cxs b c d w q cm :
+  exists q', msteps ns (mkSt e cxs None b c d w q) (r_cm cm) = Some (mkSt e cxs None b c d w q') /\ pres q q'.
+Proof.
+  revert q. induction cm as [|v cm IH]; intros q; [exists q; split; [reflexivity|apply pres_refl]|].
+  cbn [r_cm map msteps]. rewrite comment_step.
+  destruct (IH ((I_COMMENT, VComment v) :: q)) as (q' & E & P). exists q'. split; auto.
+  eapply pres_trans; [apply pres_push|exact P].
+Qed.
+
+(* root-level layout: class A = {sss} is kept, class B = after a compound is kept *)
+Definition clsB (e : exp) : bool :=
+  match e with E_simple_selector_sequence__combinator | E_simple_selector_sequence2__combinator | E_combinator => true
+             | _ => false end.
+Lemma ws_root_B ns e b c d w q ws : clsB e = true ->
+  exists e' q', msteps ns (mkSt e [] None b c d w q) (r_ws ws) = Some (mkSt e' [] None b c d w q') /\ pres q q' /\
+                clsB e' = true /\ (e = E_simple_selector_sequence__combinator -> e' = e).
+Proof.
+  revert e q. induction ws as [|t ws IH]; intros e q He; [exists e, q; repeat split; auto using pres_refl|].
+  cbn [r_ws map msteps]. destruct t as [v|v]; cbn [r_w].
+  - assert (E : mstep ns (mkSt e [] None b c d w q) (mkS TS v) =
+                Some (mkSt E_simple_selector_sequence__combinator [] None b c d w ((I_descendant, VStr (s " ")) :: q))).
+    { destruct e; try discriminate He; reflexivity. }
+    rewrite E. destruct (IH E_simple_selector_sequence__combinator ((I_descendant, VStr (s " ")) :: q) eq_refl)
+      as (e' & q' & E' & P & B & K).
+    exists e', q'. split; [exact E'|]. split; [eapply pres_trans; [apply pres_push|exact P]|].
+    split; [exact B|]. intros ->. auto.
+  - rewrite comment_step. destruct (IH e ((I_COMMENT, VComment v) :: q) He) as (e' & q' & E' & P & B & K).
+    exists e', q'. repeat split; auto. eapply pres_trans; [apply pres_push|exact P].
+Qed.
+
+
+Definition uri_of (ns : ns_map) (q : nsq) : nsuri :=
+  match q with
+  | NsDefault => match assoc_s [] ns with Some u => UStr u | None => UNone end
+  | NsAny => UAny
+  | NsNo => UStr []
+  | NsP p => match assoc_s p ns with Some u => UStr u | None => UNone end
+  end.
+
+Lemma hash_ok ns neg e b c d w q v : startok neg e = true ->
+  msteps ns (mkSt e (octx neg) None b c d w q) [mkS THASH v] =
+  Some (mkSt (after_simple neg) (octx neg) None (S b) c d w ((I_id, VStr v) :: q)).
+Proof. intros He. destruct neg, e; try discriminate He; reflexivity. Qed.
+
+Lemma class_ok ns neg e b c d w q n : startok neg e = true ->
+  msteps ns (mkSt e (octx neg) None b c d w q) [g_class n] =
+  Some (mkSt (after_simple neg) (octx neg) None b (S c) d w ((I_class, VStr (s "." ++ n)) :: q)).
+Proof. intros He. destruct neg, e; try discriminate He; reflexivity. Qed.
+
+Definition tsel (neg : bool) : ityp := if neg then I_negation_type_selector else I_type_selector.
+
+Lemma nsprefix_step ns neg e b c d w q (p : str) : hstartok neg e = true ->
+  mstep ns (mkSt e (octx neg) None b c d w q) (mkS Tnamespace_prefix (p ++ s "|")) =
+  Some (mkSt E_element_name (octx neg) (Some p) b c d w q).
+Proof.
+  intros He. unfold mstep. change (handler_of _) with (Some H_namespace_prefix). unfold h_namespace_prefix.
+  destruct neg, e; try discriminate He; cbn; change (s "|") with [124%N]; rewrite removelast_last; reflexivity.
+Qed.
+Lemma ident_prefixed_step ns neg b c d w q p u n : ident p = true -> assoc_s p ns = Some u ->
+  mstep ns (mkSt E_element_name (octx neg) (Some p) b c d w q) (mkS TIDENT n) =
+  Some (mkSt (after_simple neg) (octx neg) None b c (S d) w ((tsel neg, VPair (UStr u) n) :: q)).
+Proof.
+  intros Hp Hu. destruct (ident_facts p Hp) as (A & B & C & D & E & F & G).
+  unfold mstep. change (handler_of _) with (Some H_ident). unfold h_ident.
+  destruct neg; cbn [top_is ctx octx is_cx expd andb orb T_ident_0 T_ident_1 T_ident_2 T_ident_3 top_pseudo];
+    unfold append; cbn [pfx]; cbn [ends_selector orb andb negb]; rewrite B; (destruct p as [|c0 r]; [congruence|]);
+    rewrite Hu; reflexivity.
+Qed.
+
+Lemma tname_ok ns neg e b c d w q qn n : hstartok neg e = true -> declared ns qn = true -> ident n = true ->
+  msteps ns (mkSt e (octx neg) None b c d w q) (g_ns qn ++ [mkS TIDENT n]) =
+  Some (mkSt (after_simple neg) (octx neg) None b c (S d) w ((tsel neg, VPair (uri_of ns qn) n) :: q)).
+Proof.
+  intros He Hd Hn. destruct qn as [| | |p].
+  - destruct neg, e; try discriminate He; reflexivity.
+  - destruct neg, e; try discriminate He; reflexivity.
+  - destruct neg, e; try discriminate He; reflexivity.
+  - simpl in Hd. apply andb_true_iff in Hd as [Hp Ha].
+    destruct (assoc_s p ns) as [u|] eqn:Eu; [|discriminate].
+    cbn [g_ns nsval app msteps]. rewrite nsprefix_step by assumption. cbv beta iota.
+    pose proof (ident_prefixed_step ns neg b c d w q p u n Hp Eu) as X.
+    rewrite X. cbn [uri_of]. rewrite Eu. reflexivity.
+Qed.
+
+Lemma split_bar_ok p x : mem 124 p = false -> mem 124 x = false -> split_bar (p ++ 124%N :: x) = Some (p, x).
+Proof.
+  intros Hp Hx. induction p as [|c r IH]; simpl.
+  - rewrite Hx. reflexivity.
+  - simpl in Hp. apply orb_false_iff in Hp as [H1 H2]. rewrite H1, (IH H2). reflexivity.
+Qed.
+
+Lemma univ_ok ns neg e b c d w q qn : hstartok neg e = true -> declared ns qn = true ->
+  msteps ns (mkSt e (octx neg) None b c d w q) [g_univ qn] =
+  Some (mkSt (after_simple neg) (octx neg) None b c d w ((I_universal, VPair (uri_of ns qn) (s "*")) :: q)).
+Proof.
+  intros He Hd. destruct qn as [| | |p].
+  - destruct neg, e; try discriminate He; reflexivity.
+  - destruct neg, e; try discriminate He; reflexivity.
+  - destruct neg, e; try discriminate He; reflexivity.
+  - simpl in Hd. apply andb_true_iff in Hd as [Hp Ha]. destruct (ident_facts p Hp) as (A & B & C & D & E & F & G).
+    destruct (assoc_s p ns) as [u|] eqn:Eu; [|discriminate].
+    assert (M : mem 124 (nsval (NsP p) ++ s "*") = true).
+    { cbn [nsval]. rewrite <- app_assoc, mem_app. simpl. apply orb_true_r. }
+    assert (Sp : split_bar (nsval (NsP p) ++ s "*") = Some (p, s "*")).
+    { cbn [nsval]. rewrite <- app_assoc. apply split_bar_ok; auto. }
+    unfold g_univ. cbn [msteps]. unfold mstep. change (handler_of _) with (Some H_universal). unfold h_universal.
+    destruct neg, e; try discriminate He; cbn [expd T_universal_0 top_is ctx octx is_cx];
+      unfold append; cbn [pfx vstr sval]; rewrite M, Sp; cbn [ends_selector orb andb negb]; rewrite B;
+      (destruct p as [|c0 r]; [congruence|]); rewrite Eu; cbn [uri_of]; rewrite Eu; reflexivity.
+Qed.
+
+(* ---- attribute selectors *)
+Lemma attname_ok ns o b c d w q qn n : declared ns qn = true -> ident n = true ->
+  exists q', msteps ns (mkSt E_attname (CAttrib :: o) None b c d w q) (g_ns qn ++ [mkS TIDENT n]) =
+             Some (mkSt E_attcombinator (CAttrib :: o) None b c d w q') /\ pres q q'.
+Proof.
+  intros Hd Hn. destruct qn as [| | |p].
+  - eexists; split; [reflexivity|apply pres_push].
+  - eexists; split; [reflexivity|apply pres_push].
+  - eexists; split; [reflexivity|apply pres_push].
+  - simpl in Hd. apply andb_true_iff in Hd as [Hp Ha]. destruct (ident_facts p Hp) as (A & B & C & D & E & F & G).
+    destruct (assoc_s p ns) as [u|] eqn:Eu; [|discriminate].
+    exists ((I_attribute_selector, VPair (UStr u) n) :: q). split; [|apply pres_push].
+    cbn [g_ns nsval app msteps].
+    assert (S1 : mstep ns (mkSt E_attname (CAttrib :: o) None b c d w q) (mkS Tnamespace_prefix (p ++ s "|")) =
+                 Some (mkSt E_attname2 (CAttrib :: o) (Some p) b c d w q)).
+    { unfold mstep. change (handler_of _) with (Some H_namespace_prefix). unfold h_namespace_prefix.
+      cbn. change (s "|") with [124%N]. rewrite removelast_last. reflexivity. }
+    rewrite S1. cbv beta iota.
+    unfold mstep. change (handler_of _) with (Some H_ident). unfold h_ident.
+    cbn [top_is ctx is_cx expd andb T_ident_0]. unfold append. cbn [pfx]. cbn [ends_selector orb andb negb].
+    rewrite B. destruct p as [|c0 r]; [congruence|]. rewrite Eu. reflexivity.
+Qed.
+
+Lemma nb_cons_true i q : nbi i = true -> nb (i :: q) = true.
+Proof. apply nb_push. Qed.
+
+Definition g_rest (a : attr) : list stok :=
+  match at_rest a with None => [] | Some (o, w3, v, w4) => [r_op o] ++ r_ws w3 ++ [r_av v] ++ r_ws w4 end.
+Lemma g_attr_eq a : g_attr a = [ch "["] ++ r_ws (at_w1 a) ++ (g_ns (at_ns a) ++ [mkS TIDENT (at_name a)]) ++
+                                r_ws (at_w2 a) ++ g_rest a ++ [ch "]"].
+Proof.
+  unfold g_attr, g_rest. destruct (at_rest a) as [[[[o w3] v] w4]|]; cbn [app]; repeat rewrite <- app_assoc;
+    cbn [app]; reflexivity.
+Qed.
+
+Lemma rest_ok ns o b c d w q a :
+  match at_rest a with
+  | None => true
+  | Some (_, w3, v, w4) => ok_ws w3 && ok_ws w4 && match v with AvI x => ident x | AvS x => quoted x end
+  end = true ->
+  exists e' q', msteps ns (mkSt E_attcombinator (CAttrib :: o) None b c d w q) (g_rest a) =
+             Some (mkSt e' (CAttrib :: o) None b c d w q') /\ pres q q' /\ T_char_0 e' = true.
+Proof.
+  unfold g_rest. destruct (at_rest a) as [[[[op w3] v] w4]|]; intros H.
+  - do 2 (apply andb_true_iff in H; destruct H as [H ?]).
+    rewrite msteps_app.
+    assert (S1 : exists q1, msteps ns (mkSt E_attcombinator (CAttrib :: o) None b c d w q) [r_op op] =
+                 Some (mkSt E_attvalue (CAttrib :: o) None b c d w q1) /\ pres q q1).
+    { destruct op; (eexists; split; [reflexivity|apply pres_push]). }
+    destruct S1 as (q1 & E1 & P1). rewrite E1. rewrite msteps_app.
+    destruct (ws_inert ns E_attvalue (CAttrib :: o) b c d w q1 w3 eq_refl) as (q2 & E2 & P2). rewrite E2.
+    rewrite msteps_app.
+    assert (S3 : exists q3, msteps ns (mkSt E_attvalue (CAttrib :: o) None b c d w q2) [r_av v] =
+                 Some (mkSt E_attend (CAttrib :: o) None b c d w q3) /\ pres q2 q3).
+    { destruct v as [x|x].
+      - eexists; split; [reflexivity|apply pres_push].
+      - destruct x as [|c0 r]; [discriminate|]. eexists; split; [reflexivity|apply pres_push]. }
+    destruct S3 as (q3 & E3 & P3). rewrite E3.
+    destruct (ws_inert ns E_attend (CAttrib :: o) b c d w q3 w4 eq_refl) as (q4 & E4 & P4).
+    exists E_attend, q4. split; [exact E4|]. split; [|reflexivity].
+    eauto using pres_trans.
+  - exists E_attcombinator, q. repeat split; auto using pres_refl.
+Qed.
+
+Lemma attr_ok ns neg e b c d w q a : startok neg e = true -> ok_attr ns a = true ->
+  exists q', msteps ns (mkSt e (octx neg) None b c d w q) (g_attr a) =
+             Some (mkSt (after_simple neg) (octx neg) None b (S c) d w q') /\ nb q' = true.
+Proof.
+  intros He H. unfold ok_attr in H. do 4 (apply andb_true_iff in H; destruct H as [H ?]).
+  rename H into Hw1, H3 into Hd, H2 into Hn, H1 into Hw2, H0 into Hr.
+  rewrite g_attr_eq, msteps_app.
+  assert (S1 : msteps ns (mkSt e (octx neg) None b c d w q) [ch "["] =
+               Some (mkSt E_attname (CAttrib :: octx neg) None b (S c) d w ((I_attribute_start, VStr (s "[")) :: q))).
+  { destruct neg, e; try discriminate He; reflexivity. }
+  rewrite S1. set (q0 := (I_attribute_start, VStr (s "[")) :: q). assert (N0 : nb q0 = true) by reflexivity.
+  rewrite msteps_app.
+  destruct (ws_inert ns E_attname (CAttrib :: octx neg) b (S c) d w q0 (at_w1 a) eq_refl) as (q1 & E1 & P1). rewrite E1.
+  rewrite msteps_app.
+  destruct (attname_ok ns (octx neg) b (S c) d w q1 _ _ Hd Hn) as (q2 & E2 & P2). rewrite E2.
+  rewrite msteps_app.
+  destruct (ws_inert ns E_attcombinator (CAttrib :: octx neg) b (S c) d w q2 (at_w2 a) eq_refl) as (q3 & E3 & P3).
+  rewrite E3. rewrite msteps_app.
+  destruct (rest_ok ns (octx neg) b (S c) d w q3 a Hr) as (e4 & q4 & E4 & P4 & T4). rewrite E4.
+  exists ((I_attribute_end, VStr (s "]")) :: q4). split.
+  - destruct neg, e4; try discriminate T4; reflexivity.
+  - apply (pres_nb q0); auto. eapply pres_trans; [|apply pres_push]. eauto using pres_trans.
+Qed.
+
+(* ---- functional pseudo arguments *)
+Lemma pres_replace i x q : blank (snd x) = true -> pres (x :: q) (i :: q).
+Proof. unfold pres, nb. simpl. unfold nbi at 1. intros ->. simpl. intros ->. apply orb_true_r. Qed.
+
+Lemma last_S_blank e cxs p b c d w x q : last_S (mkSt e cxs p b c d w (x :: q)) = true -> blank (snd x) = true.
+Proof.
+  unfold last_S. cbn [sq]. destruct x as [t v]. cbn [snd]. destruct v; try discriminate. unfold ival_is.
+  intros H. apply eqs_spec in H. subst. reflexivity.
+Qed.
+
+Definition estart (e : exp) : bool := match e with E_expressionstart | E_expression => true | _ => false end.
+
+Lemma et_step ns x o b c d w e0 q t : is_pcx x = true -> estart e0 = true -> ok_et t = true ->
+  exists q1, mstep ns (mkSt e0 (x :: o) None b c d w q) (r_et t) = Some (mkSt E_expression (x :: o) None b c d w q1)
+             /\ pres q q1.
+Proof.
+  intros Hx He Ht. destruct t; cbn [r_et ok_et] in *.
+  - unfold mstep. change (handler_of _) with (Some H_char). unfold h_char.
+    destruct (last_S (mkSt e0 (x :: o) None b c d w q)) eqn:L.
+    + destruct q as [|i q]; [discriminate L|]. exists ((I_plus, VStr (s "+")) :: q). split.
+      * destruct x, e0; try discriminate; reflexivity.
+      * apply pres_replace. eapply last_S_blank; eauto.
+    + exists ((I_plus, VStr (s "+")) :: q). split; [|apply pres_push].
+      destruct x, e0; try discriminate; reflexivity.
+  - eexists. split; [|apply pres_push]. destruct x, e0; try discriminate; reflexivity.
+  - eexists. split; [|apply pres_push]. destruct x, e0; try discriminate; reflexivity.
+  - eexists. split; [|apply pres_push]. destruct x, e0; try discriminate; reflexivity.
+  - destruct v as [|c0 r]; [discriminate|]. eexists. split; [|apply pres_push].
+    destruct x, e0; try discriminate; reflexivity.
+  - eexists. split; [|apply pres_push]. destruct x, e0; try discriminate; reflexivity.
+Qed.
+
+Lemma expr_ok ns x o b c d w e0 q l : is_pcx x = true -> estart e0 = true ->
+  forallb (fun p => ok_et (fst p) && ok_ws (snd p)) l = true ->
+  exists q', msteps ns (mkSt e0 (x :: o) None b c d w q) (r_expr l) =
+             Some (mkSt (match l with [] => e0 | _ => E_expression end) (x :: o) None b c d w q') /\ pres q q'.
+Proof.
+  intros Hx. revert e0 q. induction l as [|[t ws] l IH]; intros e0 q He Hl.
+  - exists q. split; [reflexivity|apply pres_refl].
+  - cbn [forallb fst snd] in Hl. apply andb_true_iff in Hl as [H1 H2]. apply andb_true_iff in H1 as [H0 H1].
+    cbn [r_expr flat_map fst snd app]. rewrite msteps_cons. cbn [msteps].
+    destruct (et_step ns x o b c d w e0 q t Hx He H0) as (q1 & E1 & P1). rewrite E1. rewrite msteps_app.
+    destruct (ws_pseudo ns E_expression x o b c d w q1 ws Hx) as (q2 & E2 & P2). rewrite E2.
+    destruct (IH E_expression q2 eq_refl H2) as (q3 & E3 & P3). exists q3. split.
+    + fold (r_expr l). rewrite E3. destruct l; reflexivity.
+    + eauto using pres_trans.
+Qed.
+
+(* ---- pseudo-classes and pseudo-elements *)
+Lemma last_is_app2 c pre x : x <> [] -> last_is c (pre ++ x) = last_is c x.
+Proof.
+  intros Hx. induction pre as [|y pre IH]; [reflexivity|]. cbn [app last_is].
+  destruct (pre ++ x) eqn:E; [destruct pre; [contradiction|discriminate]|]. exact IH.
+Qed.
+Lemma last_is_nc x : forallb namechar x = true -> last_is 40 x = false.
+Proof.
+  induction x as [|c r IH]; [reflexivity|]. cbn [forallb last_is]. intros H. apply andb_true_iff in H as [H1 H2].
+  destruct r; [|auto]. destruct (namechar_facts c H1) as (_ & _ & _ & _ & _ & X). exact X.
+Qed.
+Lemma last_is_ident pre x : ident x = true -> last_is 40 (pre ++ x) = false.
+Proof.
+  intros H. rewrite last_is_app2; [apply last_is_nc, ident_namechars, H|].
+  intros ->. discriminate.
+Qed.
+Lemma last40_not_where v : last_is 40 v = false -> eqs v (s ":where(") = false.
+Proof. intros H. destruct (eqs v (s ":where(")) eqn:E; [|reflexivity]. apply eqs_spec in E. subst. discriminate. Qed.
+Lemma last40_not_legacy v : last_is 40 v = true -> mem_str v legacy_pseudo_elements = false.
+Proof.
+  intros H. destruct (mem_str v legacy_pseudo_elements) eqn:E; [|reflexivity].
+  unfold legacy_pseudo_elements in E. cbn [mem_str] in E.
+  repeat (apply orb_true_iff in E; destruct E as [E|E]; [apply eqs_spec in E; subst; discriminate|]).
+  discriminate.
+Qed.
+Lemma cval_noslash dbl : mem 92 (cval dbl) = false. Proof. destruct dbl; reflexivity. Qed.
+Lemma lower_cval dbl : lower (cval dbl) = cval dbl. Proof. destruct dbl; reflexivity. Qed.
+
+Definition after_pseudo (neg : bool) (p : pseudo) : exp :=
+  if neg then E_negationend else
+  match p with
+  | PsId _ _ => if pseudo_is_element p then E_combinator else E_simple_selector_sequence2__combinator
+  | PsFn dbl _ _ _ => if dbl then E_combinator else E_simple_selector_sequence__combinator
+  end.
+Definition bumped (e : exp) (o : list cx) (v : v3) (b c d : nat) (w : bool) (q : list item) : st :=
+  match v with (x, y, z) => mkSt e o None (x + b) (y + c) (z + d) w q end.
+
+Lemma pseudo_id_ok ns neg e b c d w q dbl n : startok neg e = true -> ident n = true -> ident (lower n) = true ->
+  exists q', msteps ns (mkSt e (octx neg) None b c d w q) (g_pseudo (PsId dbl n)) =
+             Some (bumped (after_pseudo neg (PsId dbl n)) (octx neg) (sp_pseudo (PsId dbl n)) b c d w q') /\ nb q' = true.
+Proof.
+  intros He Hn Hl.
+  pose proof (normalize_id (cval dbl) n (cval_noslash dbl) Hn) as Nm. rewrite lower_cval in Nm.
+  pose proof (last_is_ident (cval dbl) (lower n) Hl) as L40.
+  pose proof (last40_not_where _ L40) as NW.
+  cbn [g_pseudo msteps]. unfold mstep.
+  assert (Hh : handler_of (sty (mkS (pty dbl) (cval dbl ++ n))) = Some H_pseudo) by (destruct dbl; reflexivity).
+  rewrite Hh. unfold h_pseudo. cbn [sval sty]. rewrite Nm, L40.
+  destruct dbl.
+  - cbn [pty is_t tty_eqb]. rewrite orb_true_r.
+    exists ((I_pseudo_element, VStr (cval true ++ lower n)) :: q). split.
+    + destruct neg, e; try discriminate He; reflexivity.
+    + reflexivity.
+  - cbn [pty is_t tty_eqb]. rewrite orb_false_r. change (mem_str (cval false ++ lower n) legacy_pseudo_elements) with (is_legacy n).
+    cbn [sp_pseudo after_pseudo pseudo_is_element orb].
+    destruct (is_legacy n) eqn:Lg.
+    + exists ((I_pseudo_element, VStr (cval false ++ lower n)) :: q). split; [|reflexivity].
+      destruct neg, e; try discriminate He; cbn [after_pseudo pseudo_is_element orb]; rewrite ?Lg; reflexivity.
+    + exists ((I_pseudo_class, VStr (cval false ++ lower n)) :: q). split; [|reflexivity].
+      destruct neg, e; try discriminate He; cbn [after_pseudo pseudo_is_element orb]; rewrite ?Lg;
+        cbn; cbn in NW; rewrite NW; reflexivity.
+Qed.
+
+Lemma eqs_app_tail a b c : eqs (a ++ c) (b ++ c) = eqs a b.
+Proof.
+  destruct (eqs a b) eqn:E.
+  - apply eqs_spec in E. subst. apply eqs_refl.
+  - destruct (eqs (a ++ c) (b ++ c)) eqn:E2; [|reflexivity]. apply eqs_spec in E2. apply app_inv_tail in E2.
+    subst. rewrite eqs_refl in E. discriminate.
+Qed.
+Lemma where_eq x : eqs (s ":" ++ x ++ s "(") (s ":where(") = eqs x (s "where").
+Proof.
+  change (s ":where(") with (s ":" ++ s "where" ++ s "("). cbn [app s_of_string eqs]. rewrite N.eqb_refl.
+  cbn [andb]. apply (eqs_app_tail x (s "where") (s "(")).
+Qed.
+
+Definition pcx (dbl : bool) : cx := if dbl then CPseudoElement else CPseudoClass.
+
+Lemma pseudo_fn_ok ns neg e b c d w q dbl n ws l : startok neg e = true -> ok_pseudo (PsFn dbl n ws l) = true ->
+  exists q', msteps ns (mkSt e (octx neg) None b c d w q) (g_pseudo (PsFn dbl n ws l)) =
+             Some (bumped (after_pseudo neg (PsFn dbl n ws l)) (octx neg) (sp_pseudo (PsFn dbl n ws l)) b c d w q')
+             /\ nb q' = true.
+Proof.
+  intros He H. cbn [ok_pseudo] in H. do 3 (apply andb_true_iff in H; destruct H as [H ?]).
+  rename H into Hn, H1 into Hws, H0 into Hl.
+  pose proof (normalize_fn (cval dbl) n (cval_noslash dbl) Hn) as Nm. rewrite lower_cval in Nm.
+  assert (L40 : last_is 40 (cval dbl ++ lower n ++ s "(") = true) by (rewrite app_assoc; apply (last_is_app 40)).
+  pose proof (last40_not_legacy _ L40) as NL.
+  cbn [g_pseudo]. rewrite msteps_cons.
+  assert (S1 : exists q1, msteps ns (mkSt e (octx neg) None b c d w q) [mkS (pty dbl) (cval dbl ++ n ++ s "(")] =
+      Some (bumped E_expressionstart (pcx dbl :: octx neg) (sp_pseudo (PsFn dbl n ws l)) b c d w q1) /\ nb q1 = true).
+  { cbn [msteps]. unfold mstep.
+    assert (Hh : handler_of (sty (mkS (pty dbl) (cval dbl ++ n ++ s "("))) = Some H_pseudo) by (destruct dbl; reflexivity).
+    rewrite Hh. unfold h_pseudo. cbn [sval sty]. rewrite Nm, L40, NL. cbn [orb].
+    destruct dbl.
+    - exists ((I_pseudo_element, VStr (cval true ++ lower n ++ s "(")) :: q). split; [|reflexivity].
+      destruct neg, e; try discriminate He; reflexivity.
+    - exists ((I_pseudo_class, VStr (cval false ++ lower n ++ s "(")) :: q). split; [|reflexivity].
+      pose proof (where_eq (lower n)) as W. cbn [sp_pseudo]. unfold is_where.
+      destruct (eqs (lower n) (s "where")) eqn:Ew;
+        destruct neg, e; try discriminate He; cbn; cbn in W; rewrite W; reflexivity. }
+  destruct S1 as (q1 & E1 & N1). rewrite E1.
+  destruct (sp_pseudo (PsFn dbl n ws l)) as [[x y] z]. cbn [bumped].
+  assert (Hx : is_pcx (pcx dbl) = true) by (destruct dbl; reflexivity).
+  rewrite msteps_app.
+  destruct (ws_pseudo ns E_expressionstart (pcx dbl) (octx neg) (x + b) (y + c) (z + d) w q1 ws Hx) as (q2 & E2 & P2).
+  rewrite E2. rewrite msteps_app.
+  unfold ok_expr in Hl. destruct l as [|t0 l0]; [discriminate|].
+  destruct (expr_ok ns (pcx dbl) (octx neg) (x + b) (y + c) (z + d) w E_expressionstart q2 (t0 :: l0) Hx eq_refl Hl)
+    as (q3 & E3 & P3). rewrite E3.
+  exists ((I_function_end, VStr (s ")")) :: q3). split.
+  - destruct dbl, neg; reflexivity.
+  - apply (pres_nb q1); auto. eapply pres_trans; [|apply pres_push]. eauto using pres_trans.
+Qed.
+
+Lemma pseudo_ok ns neg e b c d w q p : startok neg e = true -> ok_pseudo p = true ->
+  exists q', msteps ns (mkSt e (octx neg) None b c d w q) (g_pseudo p) =
+             Some (bumped (after_pseudo neg p) (octx neg) (sp_pseudo p) b c d w q') /\ nb q' = true.
+Proof.
+  intros He H. destruct p as [dbl n|dbl n ws l].
+  - cbn [ok_pseudo] in H. apply andb_true_iff in H as [H1 H2]. now apply pseudo_id_ok.
+  - now apply pseudo_fn_ok.
+Qed.
+
+(* ---- simple selectors, compounds, combinators *)
+Lemma bumped_bumped e o (u v : v3) b c d w q :
+  match u with (x, y, z) => bumped e o v (x + b) (y + c) (z + d) w q end = bumped e o (add3 u v) b c d w q.
+Proof. destruct u as [[x y] z], v as [[x' y'] z']. cbn [bumped add3]. f_equal; lia. Qed.
+
+Lemma nb_hash t v q : hashv v = true -> nb ((t, VStr v) :: q) = true.
+Proof. destruct v as [|c r]; [discriminate|]. cbn [hashv]. intros H. apply N.eqb_eq in H. subst. reflexivity. Qed.
+
+Lemma negarg_ok ns b c d w q a : ok_negarg ns a = true ->
+  exists q', msteps ns (mkSt E_negation_arg [CNegation] None b c d w q) (g_negarg a) =
+             Some (bumped E_negationend [CNegation] (sp_negarg a) b c d w q') /\ nb q' = true.
+Proof.
+  destruct a; cbn [ok_negarg g_negarg sp_negarg]; intros H.
+  - apply andb_true_iff in H as [H1 H2]. eexists. split; [apply (tname_ok ns true); auto|reflexivity].
+  - eexists. split; [apply (univ_ok ns true); auto|reflexivity].
+  - eexists. split; [apply (hash_ok ns true); auto|now apply nb_hash].
+  - eexists. split; [apply (class_ok ns true); auto|reflexivity].
+  - apply (attr_ok ns true); auto.
+  - apply (pseudo_ok ns true); auto.
+Qed.
+
+Definition contB (e : exp) : bool :=
+  match e with E_simple_selector_sequence__combinator | E_simple_selector_sequence2__combinator => true | _ => false end.
+Lemma contB_cont e : contB e = true -> cont e = true. Proof. destruct e; auto. Qed.
+Lemma contB_clsB e : contB e = true -> clsB e = true. Proof. destruct e; auto. Qed.
+Lemma hstart_cont e : hstart e = true -> cont e = true. Proof. destruct e; auto. Qed.
+
+Lemma simple_ok ns e b c d w q x : cont e = true -> ok_simple ns x = true ->
+  exists e' q', msteps ns (mkSt e [] None b c d w q) (g_simple x) = Some (bumped e' [] (sp_simple x) b c d w q')
+                /\ nb q' = true /\ contB e' = true.
+Proof.
+  intros He. destruct x; cbn [ok_simple g_simple sp_simple]; intros H.
+  - do 2 eexists. split; [apply (hash_ok ns false); auto|]. split; [now apply nb_hash|reflexivity].
+  - do 2 eexists. split; [apply (class_ok ns false); auto|]. split; reflexivity.
+  - destruct (attr_ok ns false e b c d w q a He H) as (q' & E & N). do 2 eexists. split; [exact E|]. split; auto.
+  - apply andb_true_iff in H as [H1 H2]. apply negb_true_iff in H2.
+    destruct (pseudo_ok ns false e b c d w q p He H1) as (q' & E & N). do 2 eexists. split; [exact E|]. split; auto.
+    destruct p; cbn [after_pseudo pseudo_is_element] in *; rewrite ?H2; reflexivity.
+  - do 2 (apply andb_true_iff in H; destruct H as [H ?]).
+    rewrite msteps_cons.
+    assert (S1 : msteps ns (mkSt e [] None b c d w q) [mkS Tnegation (s ":not(")] =
+                 Some (mkSt E_negation_arg [CNegation] None b c d w ((I_negation_start, VStr (s ":not(")) :: q))).
+    { destruct e; try discriminate He; reflexivity. }
+    rewrite S1. set (q0 := (I_negation_start, VStr (s ":not(")) :: q). assert (N0 : nb q0 = true) by reflexivity.
+    rewrite msteps_app.
+    destruct (ws_inert ns E_negation_arg [CNegation] b c d w q0 w1 eq_refl) as (q1 & E1 & P1). rewrite E1.
+    rewrite msteps_app.
+    destruct (negarg_ok ns b c d w q1 a H1) as (q2 & E2 & N2). rewrite E2.
+    destruct (sp_negarg a) as [[x y] z]. cbn [bumped]. rewrite msteps_app.
+    destruct (ws_inert ns E_negationend [CNegation] (x + b) (y + c) (z + d) w q2 w2 eq_refl) as (q3 & E3 & P3). rewrite E3.
+    exists E_simple_selector_sequence__combinator, ((I_negation_end, VStr (s ")")) :: q3).
+    split; [reflexivity|]. split; [|reflexivity].
+    apply (pres_nb q2); auto. eapply pres_trans; [exact P3|apply pres_push].
+Qed.
+
+Lemma head_ok ns e b c d w q h : hstart e = true -> ok_head ns h = true ->
+  exists e' q', msteps ns (mkSt e [] None b c d w q) (g_head h) = Some (bumped e' [] (sp_head h) b c d w q')
+                /\ pres q q' /\ match h with HNone => e' = e | _ => contB e' = true /\ nb q' = true end.
+Proof.
+  intros He. destruct h; cbn [ok_head g_head sp_head]; intros H.
+  - exists e, q. repeat split; auto using pres_refl.
+  - apply andb_true_iff in H as [H1 H2]. do 2 eexists. split; [apply (tname_ok ns false); auto|].
+    split; [apply pres_push|]. split; reflexivity.
+  - do 2 eexists. split; [apply (univ_ok ns false); auto|]. split; [apply pres_push|]. split; reflexivity.
+Qed.
+
+Lemma rest_simples_ok ns l : forall e b c d w q, cont e = true ->
+  forallb (fun p => ok_cm (fst p) && ok_simple ns (snd p)) l = true ->
+  exists e' q', msteps ns (mkSt e [] None b c d w q) (flat_map (fun p => r_cm (fst p) ++ g_simple (snd p)) l) =
+                Some (bumped e' [] (sum3 (map (fun p => sp_simple (snd p)) l)) b c d w q')
+                /\ pres q q' /\ match l with [] => e' = e | _ => contB e' = true /\ nb q' = true end.
+Proof.
+  induction l as [|[cm x] l IH]; intros e b c d w q He Hl.
+  - exists e, q. repeat split; auto using pres_refl.
+  - cbn [forallb fst snd] in Hl. apply andb_true_iff in Hl as [H1 H2]. apply andb_true_iff in H1 as [H0 H1].
+    cbn [flat_map fst snd map sum3 fold_right]. rewrite <- app_assoc, msteps_app.
+    destruct (cm_any ns e [] b c d w q cm) as (q1 & E1 & P1). rewrite E1. rewrite msteps_app.
+    destruct (simple_ok ns e b c d w q1 x He H1) as (e2 & q2 & E2 & N2 & C2). rewrite E2.
+    destruct (sp_simple x) as [[x1 y1] z1] eqn:Esp. cbn [bumped].
+    destruct (IH e2 (x1 + b) (y1 + c) (z1 + d) w q2 (contB_cont _ C2) H2) as (e3 & q3 & E3 & P3 & M3).
+    exists e3, q3. split.
+    + rewrite E3. f_equal. apply (bumped_bumped e3 [] (x1, y1, z1)).
+    + split; [intros _; apply (pres_nb q2); auto|].
+      destruct l as [|y l']; [rewrite M3; split; [exact C2|apply (pres_nb q2); auto]|exact M3].
+Qed.
+
+Lemma compound_ok ns e b c d w q cp : hstart e = true -> ok_compound ns cp = true ->
+  exists e' q', msteps ns (mkSt e [] None b c d w q) (g_compound cp) = Some (bumped e' [] (sp_compound cp) b c d w q')
+                /\ nb q' = true /\ clsB e' = true.
+Proof.
+  intros He H. unfold ok_compound in H. do 3 (apply andb_true_iff in H; destruct H as [H ?]).
+  rename H into Hh, H2 into Hr, H1 into Hp, H0 into Hne. apply negb_true_iff in Hne.
+  unfold g_compound, sp_compound. rewrite msteps_app.
+  destruct (head_ok ns e b c d w q (c_head cp) He Hh) as (e1 & q1 & E1 & P1 & M1). rewrite E1.
+  destruct (sp_head (c_head cp)) as [[x1 y1] z1] eqn:Eh. cbn [bumped]. rewrite msteps_app.
+  assert (C1 : cont e1 = true).
+  { destruct (c_head cp); [subst; now apply hstart_cont|apply contB_cont, M1|apply contB_cont, M1]. }
+  destruct (rest_simples_ok ns (c_rest cp) e1 (x1 + b) (y1 + c) (z1 + d) w q1 C1 Hr) as (e2 & q2 & E2 & P2 & M2).
+  rewrite E2.
+  destruct (sum3 (map (fun p => sp_simple (snd p)) (c_rest cp))) as [[x2 y2] z2] eqn:Er. cbn [bumped].
+  assert (C2 : cont e2 = true).
+  { destruct (c_rest cp); [subst; exact C1|apply contB_cont, M2]. }
+  destruct (c_pe cp) as [[cm p]|] eqn:Epe.
+  - do 2 (apply andb_true_iff in Hp; destruct Hp as [Hp ?]). rewrite msteps_app.
+    destruct (cm_any ns e2 [] (x2 + (x1 + b)) (y2 + (y1 + c)) (z2 + (z1 + d)) w q2 cm) as (q3 & E3 & P3). rewrite E3.
+    destruct (pseudo_ok ns false e2 (x2 + (x1 + b)) (y2 + (y1 + c)) (z2 + (z1 + d)) w q3 p C2 H0) as (q4 & E4 & N4).
+    exists (after_pseudo false p), q4. split.
+    + cbn [octx] in E4. rewrite E4. destruct (sp_pseudo p) as [[x3 y3] z3]. cbn [bumped add3]. f_equal. f_equal; lia.
+    + split; [exact N4|]. destruct p; cbn [after_pseudo pseudo_is_element] in *; rewrite ?H; reflexivity.
+  - exists e2, q2. split.
+    + cbn [msteps add3]. f_equal. cbn [bumped]. f_equal; lia.
+    + destruct (c_rest cp) as [|s0 l0].
+      * subst e2. destruct (c_head cp); [discriminate Hne| |]; destruct M1 as [M1 M1'];
+          (split; [apply (pres_nb q1); auto|apply contB_clsB; auto]).
+      * destruct M2 as [M2 M2']. split; [exact M2'|apply contB_clsB; auto].
+Qed.
+
+Lemma comb_char_step ns e b c d w q x nm : clsB e = true ->
+  (x = ">"%string /\ nm = I_child \/ x = "+"%string /\ nm = I_adjacent_sibling \/ x = "~"%string /\ nm = I_following_sibling) ->
+  exists q', mstep ns (mkSt e [] None b c d w q) (ch x) = Some (mkSt E_simple_selector_sequence [] None b c d w q')
+             /\ pres q q'.
+Proof.
+  intros He Hx. unfold mstep. change (handler_of _) with (Some H_char). unfold h_char.
+  destruct (last_S (mkSt e [] None b c d w q)) eqn:L.
+  - destruct q as [|i q]; [discriminate L|]. exists ((nm, VStr (s x)) :: q). split.
+    + destruct Hx as [[-> ->]|[[-> ->]|[-> ->]]]; destruct e; try discriminate He; reflexivity.
+    + apply pres_replace. eapply last_S_blank; eauto.
+  - exists ((nm, VStr (s x)) :: q). split; [|apply pres_push].
+    destruct Hx as [[-> ->]|[[-> ->]|[-> ->]]]; destruct e; try discriminate He; reflexivity.
+Qed.
+
+Lemma comb_ok ns e b c d w q cb : clsB e = true -> ok_comb cb = true ->
+  exists e' q', msteps ns (mkSt e [] None b c d w q) (r_comb cb) = Some (mkSt e' [] None b c d w q')
+                /\ pres q q' /\ hstart e' = true.
+Proof.
+  intros He H.
+  assert (G : forall w1 w2 x nm, ok_ws w1 = true -> ok_ws w2 = true ->
+     (x = ">"%string /\ nm = I_child \/ x = "+"%string /\ nm = I_adjacent_sibling \/ x = "~"%string /\ nm = I_following_sibling) ->
+     exists e' q', msteps ns (mkSt e [] None b c d w q) (r_ws w1 ++ ch x :: r_ws w2) = Some (mkSt e' [] None b c d w q')
+                /\ pres q q' /\ hstart e' = true).
+  { intros w1 w2 x nm _ _ Hx. rewrite msteps_app.
+    destruct (ws_root_B ns e b c d w q w1 He) as (e1 & q1 & E1 & P1 & B1 & _). rewrite E1.
+    rewrite msteps_cons. cbn [msteps].
+    destruct (comb_char_step ns e1 b c d w q1 x nm B1 Hx) as (q2 & E2 & P2). rewrite E2.
+    destruct (ws_inert ns E_simple_selector_sequence [] b c d w q2 w2 eq_refl) as (q3 & E3 & P3).
+    exists E_simple_selector_sequence, q3. split; [exact E3|]. split; [eauto using pres_trans|reflexivity]. }
+  destruct cb; cbn [ok_comb r_comb] in *.
+  - do 2 (apply andb_true_iff in H; destruct H as [H ?]). rewrite msteps_app.
+    destruct (ws_root_B ns e b c d w q w1 He) as (e1 & q1 & E1 & P1 & B1 & _). rewrite E1.
+    rewrite msteps_cons.
+    assert (S2 : msteps ns (mkSt e1 [] None b c d w q1) [mkS TS sp] =
+                 Some (mkSt E_simple_selector_sequence__combinator [] None b c d w ((I_descendant, VStr (s " ")) :: q1))).
+    { destruct e1; try discriminate B1; reflexivity. }
+    rewrite S2.
+    destruct (ws_root_B ns E_simple_selector_sequence__combinator b c d w ((I_descendant, VStr (s " ")) :: q1) w2 eq_refl)
+      as (e3 & q3 & E3 & P3 & B3 & K3).
+    exists e3, q3. split; [exact E3|]. split.
+    + eapply pres_trans; [exact P1|]. eapply pres_trans; [apply pres_push|exact P3].
+    + rewrite (K3 eq_refl). reflexivity.
+  - apply andb_true_iff in H as [H1 H2]. apply (G w1 w2 ">"%string I_child); auto.
+  - apply andb_true_iff in H as [H1 H2]. apply (G w1 w2 "+"%string I_adjacent_sibling); auto.
+  - apply andb_true_iff in H as [H1 H2]. apply (G w1 w2 "~"%string I_following_sibling); auto.
+Qed.
+
+Lemma more_ok ns l : forall e b c d w q, clsB e = true -> nb q = true ->
+  forallb (fun p => ok_comb (fst p) && ok_compound ns (snd p)) l = true ->
+  exists e' q', msteps ns (mkSt e [] None b c d w q) (flat_map (fun p => r_comb (fst p) ++ g_compound (snd p)) l) =
+                Some (bumped e' [] (sum3 (map (fun p => sp_compound (snd p)) l)) b c d w q')
+                /\ nb q' = true /\ clsB e' = true.
+Proof.
+  induction l as [|[cb cp] l IH]; intros e b c d w q He Hq Hl.
+  - exists e, q. repeat split; auto.
+  - cbn [forallb fst snd] in Hl. apply andb_true_iff in Hl as [H1 H2]. apply andb_true_iff in H1 as [H0 H1].
+    cbn [flat_map fst snd map sum3 fold_right]. rewrite <- app_assoc, msteps_app.
+    destruct (comb_ok ns e b c d w q cb He H0) as (e1 & q1 & E1 & P1 & S1). rewrite E1. rewrite msteps_app.
+    destruct (compound_ok ns e1 b c d w q1 cp S1 H1) as (e2 & q2 & E2 & N2 & B2). rewrite E2.
+    destruct (sp_compound cp) as [[x1 y1] z1] eqn:Esp. cbn [bumped].
+    destruct (IH e2 (x1 + b) (y1 + c) (z1 + d) w q2 B2 N2 H2) as (e3 & q3 & E3 & N3 & B3).
+    exists e3, q3. split; [|split; assumption].
+    rewrite E3. f_equal. apply (bumped_bumped e3 [] (x1, y1, z1)).
+Qed.
+
+Lemma finish_ok e b c d q : clsB e = true -> nb q = true ->
+  exists seq, finish (mkSt e [] None b c d true q) = Accepted b c d seq.
+Proof.
+  intros He Hq. destruct q as [|[t v] r]; [discriminate|].
+  unfold finish. cbn [wf ctx expd sq nonempty_sq andb negb orb spb spc spd].
+  assert (T : negb (Tpost_0 e) && negb (Tpost_1 e && true) = true) by (destruct e; try discriminate He; reflexivity).
+  rewrite T. destruct (blank v) eqn:Bv.
+  - cbn [nb existsb] in Hq. unfold nbi at 1 in Hq. cbn [snd] in Hq. rewrite Bv in Hq. cbn [negb orb] in Hq.
+    destruct r; [discriminate|]. eexists. reflexivity.
+  - eexists. reflexivity.
+Qed.
+
+Theorem run_glued ns x : Declared ns x ->
+  exists seq, run ns (g_selector x) =
+              Some (match sp_selector x with (b, c, d) => Accepted b c d seq end).
+Proof.
+  unfold Declared, declared_b. intros H. do 3 (apply andb_true_iff in H; destruct H as [H ?]).
+  rename H into Hl, H2 into Hf, H1 into Hm, H0 into Ht.
+  unfold run, g_selector, st0. change E_initial with E_simple_selector_sequence.
+  rewrite msteps_app.
+  destruct (ws_inert ns E_simple_selector_sequence [] 0 0 0 true [] (s_lead x) eq_refl) as (q1 & E1 & _). rewrite E1.
+  rewrite msteps_app.
+  destruct (compound_ok ns E_simple_selector_sequence 0 0 0 true q1 (s_first x) eq_refl Hf) as (e2 & q2 & E2 & N2 & B2).
+  rewrite E2. unfold sp_selector.
+  destruct (sp_compound (s_first x)) as [[x1 y1] z1]. cbn [bumped]. rewrite msteps_app.
+  destruct (more_ok ns (s_more x) e2 (x1 + 0) (y1 + 0) (z1 + 0) true q2 B2 N2 Hm) as (e3 & q3 & E3 & N3 & B3).
+  rewrite E3.
+  destruct (sum3 (map (fun p => sp_compound (snd p)) (s_more x))) as [[x2 y2] z2]. cbn [bumped add3].
+  destruct (ws_root_B ns e3 (x2 + (x1 + 0)) (y2 + (y1 + 0)) (z2 + (z1 + 0)) true q3 (s_trail x) B3)
+    as (e4 & q4 & E4 & P4 & B4 & _).
+  rewrite E4. cbn [option_map].
+  destruct (finish_ok e4 (x2 + (x1 + 0)) (y2 + (y1 + 0)) (z2 + (z1 + 0)) q4 B4 (P4 N3)) as (seq & F).
+  exists seq. rewrite F. f_equal. f_equal; lia.
+Qed.
+
+Theorem specificity_correct_lemma ns x : Declared ns x ->
+  wellformed (run ns (prepass (render x))) = true /\
+  spec (run ns (prepass (render x))) = (0, ids x, classes_attrs_pseudoclasses x, types_pseudoelements x)%nat.
+Proof.
+  intros H. rewrite (prepass_render ns x H). destruct (run_glued ns x H) as (seq & E). rewrite E.
+  unfold ids, classes_attrs_pseudoclasses, types_pseudoelements.
+  destruct (sp_selector x) as [[b c] d]. split; reflexivity.
+Qed.
